@@ -480,6 +480,36 @@ def shard_exhaustive(acc, shard, nshards, max_len, max_size):
             i += 1
 
 
+def check_light(case):
+    """The six verdict functions alone (no containers, symmetries or enumeration) on a basis
+    given as a plain list: sweeps every pair of permutations up to length 5 and every triple
+    up to length 4."""
+    perms = [tuple(p) for p in case]
+    for fname, (fn, oracle) in FUNCS.items():
+        got = fn([Perm(p) for p in perms])
+        want = oracle(perms)
+        if got != want:
+            return BAD("light_" + fname, {"basis": [list(p) for p in perms], "got": got, "want": want})
+    return OK(any(o(perms) for _, o in FUNCS.values()), "light", key="light" + str(perms))
+
+
+CHECKS["light"] = check_light
+
+
+def shard_light(acc, shard, nshards, pair_len, triple_len):
+    i = 0
+    pats = [list(p) for p in ref.perms_upto(pair_len, 1)]
+    for combo in itertools.combinations(pats, 2):
+        if i % nshards == shard:
+            acc.record("light", check_light, list(combo))
+        i += 1
+    pats = [list(p) for p in ref.perms_upto(triple_len, 2)]
+    for combo in itertools.combinations(pats, 3):
+        if i % nshards == shard:
+            acc.record("light", check_light, list(combo))
+        i += 1
+
+
 def shard_generated(acc, shard, nshards, n_basis, n_hist, nmax):
     engine.hyp_run(acc, "basis", check_basis, basis_cases(4 if nmax <= 7 else 12, nmax), n_basis, shard)
     engine.hyp_run(acc, "history", check_history, history_cases(), n_hist, shard)
@@ -492,6 +522,7 @@ FUZZ = {"history": ("history", history_cases)}
 
 
 def run(acc, tier):
+    engine.pmap(acc, shard_light, extra=((5, 4) if tier == "quick" else (6, 4)))
     if tier == "quick":
         engine.pmap(acc, shard_exhaustive, extra=(3, 2))
         engine.pmap(acc, shard_generated, extra=(60, 80, 7))
